@@ -104,7 +104,7 @@ Proof.
 Qed.
 
 Lemma half_is (x : R) : half RO = 1 / 2.
-Proof. unfold half; cx. cbn. lra. Qed.
+Proof. unfold half; cx. cbn. field. Qed.
 
 (* logabs z = ln |z|, and on the way: the divisor is non-zero, both log arguments are positive (definedness) *)
 Lemma logabs_spec (z : C) : z <> (0, 0) -> logabs RO z = ln (Cmod z).
